@@ -33,6 +33,7 @@ func runC02(c *Ctx) {
 	ruleErrorsOfPersistenceChecked(c, "R2.8", "internal/chain", "internal/core")
 	ruleResyncDecidedByRequest(c, "R2.1")
 	ruleOpenFailureNotADecision(c, "R2.10")
+	ruleCheckBoundedByHead(c, "R2.11")
 	ruleVerifyBeforePut(c, "R2.9", nil) // BLS signatures are unique: two nodes can hold different bytes for a round only if one stored a beacon it did not verify
 	ruleMemDB(c, "R2.7")                // the in-memory back-end keeps the newest rounds, ordered and without duplicates
 }
@@ -598,4 +599,53 @@ func ruleResyncDecidedByRequest(c *Ctx, rule string) {
 		c.Ok(rule, "every peer attempt gets the request's own from and upTo", shortPos(c.P, ci), okArgs, fmt.Sprintf("tryNode(ctx, %s, %s, peer)", pathOf(a[2]), pathOf(a[3])))
 	}
 	c.Floor(rule, "tryNode calls in Sync", n, 1)
+}
+
+// R2.11: the chain check (and the repair that follows it, which writes through the raw store) never looks above the
+// stored head: every definition of the bound of the check loop is the caller's target or the head's round, and the
+// target is replaced by the head's round when it is larger. A bound taken from the clock makes the repair write rounds
+// beyond the head one by one, below every layer that keeps the chain consecutive.
+func ruleCheckBoundedByHead(c *Ctx, rule string) {
+	c.ranRules[rule] = true
+	fn := c.P.Fn("internal/chain/beacon.(*SyncManager).CheckPastBeacons")
+	if !c.Anchor(rule, "internal/chain/beacon.(*SyncManager).CheckPastBeacons", fn != nil) {
+		return
+	}
+	n := 0
+	forEachInstr(fn, func(_ *ssa.BasicBlock, _ int, in ssa.Instruction) {
+		iff, ok := in.(*ssa.If)
+		if !ok {
+			return
+		}
+		lo, hi, _, isOrd := ordForm(iff.Cond, true)
+		if !isOrd {
+			return
+		}
+		// the loop test: a phi-carried counter against the bound
+		var bound ssa.Value
+		if _, isPhi := stripConv(lo).(*ssa.Phi); isPhi && !hasOrigin(Origins(lo), func(o Origin) bool { return o.Kind == "call" }) {
+			bound = hi
+		}
+		if bound == nil || !hasOrigin(Origins(bound), func(o Origin) bool { return o.Kind == "param" }) {
+			return
+		}
+		n++
+		bad := ""
+		for _, o := range Origins(bound) {
+			switch {
+			case o.Kind == "param", o.Kind == "const":
+			case o.Kind == "field" && strings.HasSuffix(o.Name, "common.Beacon.Round"):
+			case o.Kind == "call" && strings.HasSuffix(o.Name, ".Last"):
+			default:
+				bad = o.String()
+			}
+		}
+		clamped := len(edgesWhere(fn, func(cond ssa.Value, truth bool) bool {
+			l, h, strict, isO := ordForm(cond, truth)
+			return isO && strict && strings.HasSuffix(pathOf(l), ".Round") && hasOrigin(Origins(h), func(o Origin) bool { return o.Kind == "param" })
+		})) > 0
+		c.Ok(rule, "CheckPastBeacons checks no round above the stored head", shortPos(c.P, in), bad == "" && clamped,
+			ifs(bad != "", "the bound of the check loop is also defined from "+bad, fmt.Sprintf("bound defined from the target and the head only; target compared with the head: %v", clamped)))
+	})
+	c.Floor(rule, "check loops bounded by a target", n, 1)
 }
